@@ -23,6 +23,7 @@ const FRAME_MUTATIONS: &[&str] = &[
     "close_empty", "close_no_terminator", "query_no_terminator", "query_embedded_nul", "query_empty_body", "execute_empty",
     "execute_no_terminator", "execute_without_bind", "bind_without_parse", "sync_only", "copydata_outside_copy", "copydone_outside_copy",
     "password_message", "flush_only", "function_call", "random_garbage", "terminate_with_body", "many_syncs", "custom_command_huge_number",
+    "query_answered_with_non_utf8_error", "parse_answered_with_non_utf8_error",
 ];
 
 const STARTUP_MUTATIONS: &[&str] = &[
@@ -129,6 +130,14 @@ fn hostile_frames(rng: &mut Rng, m: &str) -> Vec<u8> {
         }
         "terminate_with_body" => Msg::new(b'X', b"junk".to_vec()).encode(),
         "many_syncs" => proto::sync().repeat(200),
+        "query_answered_with_non_utf8_error" => proto::query(&format!("SELECT * FROM t {}", tag("hostile", &format!("h.raw{}", rng.below(1000)), "errraw"))),
+        "parse_answered_with_non_utf8_error" => {
+            let mut v = proto::parse("", &format!("SELECT * FROM t {}", tag("hostile", &format!("h.rawp{}", rng.below(1000)), "errraw")), &[]);
+            v.extend(proto::bind("", "", &[], &[], &[]));
+            v.extend(proto::execute("", 0));
+            v.extend(proto::sync());
+            v
+        }
         "custom_command_huge_number" => proto::query(&format!("SET SHARDING KEY TO '{}'", "9".repeat(rng.range(19, 60) as usize))),
         _ => vec![],
     }
@@ -199,7 +208,7 @@ fn hostile_startup(rng: &mut Rng, m: &str) -> Vec<u8> {
     }
 }
 
-fn build() -> Result<Cell, String> {
+fn build_with(cache: bool) -> Result<Cell, String> {
     let mut cell = Cell::new();
     let a = cell.add_mock("db.s0.primary.0");
     let b = cell.add_mock("db2.s0.primary.0");
@@ -207,6 +216,9 @@ fn build() -> Result<Cell, String> {
     cfg.pools.push(PoolCfg::single("db", USER, PASS, 1, vec![cell.server(a, "primary")]));
     cfg.pools.push(PoolCfg::single("db2", USER, PASS, 1, vec![cell.server(b, "primary")]));
     cfg.gset("connect_timeout", "1500");
+    if cache {
+        cfg.pools[0].set("prepared_statements_cache_size", "8");
+    }
     cell.start_pgcat(&cfg, &StartOpts::default()).map_err(|e| format!("start: {:?}", e))?;
     Ok(cell)
 }
@@ -225,6 +237,9 @@ fn canary(cell: &Cell, pool: &str, id: &str, n: u64) -> Result<(), String> {
 
 fn batch(seed: u64, cases: usize, rep: &Report) -> Result<(), String> {
     let mut rng = Rng::new(seed);
+    // half of the batches run with the statement cache on (other code paths in the pooler)
+    let cache_on = seed % 2 == 0;
+    let build = || build_with(cache_on);
     let mut cell = build()?;
     let mut n = 0u64;
     for ci in 0..cases {
@@ -331,7 +346,7 @@ fn batch(seed: u64, cases: usize, rep: &Report) -> Result<(), String> {
         for e in cell.log.since(n_log0) {
             if let Ev::Handover { next, state: st, prev, .. } = &e.ev {
                 if next == "canary" {
-                    for comp in dirty_components(st, false) {
+                    for comp in dirty_components(st, cache_on) {
                         rep.violation(&format!("C11|canary_got_dirty_server_session|{}|dirty={}", case_name, comp), &format!("after hostile input {} the canary was given the server session last used by {} in state [{}]", case_name, prev, st.render()), wit(&mut cell));
                     }
                 }
